@@ -6,7 +6,8 @@ import Slock.Model.Aof
 * `aofappend <cfgBuf> <rechex>:<dathex|x> <hex64>/<blobhex|n>,…` → `<rechex>:<dathex>` (reopen in append mode, write, close)
 * `aofwrites <cfgBuf> <hex64>/<blobhex|n>,…` → `rec:dat,…` sizes after each writer call
 * `aofdl <eflag> <E> <grant> <journal> <reload>` → `commandTime age stored skipped restoredExpried`
-* `aofcompact <cfgBuf> <cur> <name>=<hex> …` → directory after each file-system mutation of a compaction with keep = none
+* `aofcompact <cfgBuf> <cur> <keepIds,…|-> <name>=<hex> …` → directory after the tmp file is written and after each later
+  file-system mutation of a compaction; `keep r` = hex of bytes 20..52 of `r` (db, LockId, key) is in the list
 * `aofrecover <cfgBuf> <now> <name>=<hex> …` → records recovered at start-up, or `finderr`
 -/
 namespace Driver
@@ -39,9 +40,9 @@ def parseRec (s : String) : Option Rec :=
 def parseRecs (s : String) : Option (List Rec) :=
   if s == "-" then some [] else (s.splitOn ",").mapM parseRec
 
-def parseDirEntry (s : String) : Option (String × Bytes) :=
+def parseDirEntry (s : String) : Option (FName × Bytes) :=
   match s.splitOn "=" with
-  | [a, b] => (parseHex b).map (fun x => (a, x))
+  | [a, b] => (parseHex b).map (fun x => (parseName a, x))
   | _ => none
 
 def parseDir (ts : List String) : Option Dir :=
@@ -49,10 +50,10 @@ def parseDir (ts : List String) : Option Dir :=
   | ["-"] => some []
   | _ => ts.mapM parseDirEntry
 
-def sortDir (d : Dir) : Dir := (d.toArray.qsort (fun a b => a.1 < b.1)).toList
+def sortDir (d : List (String × Bytes)) : List (String × Bytes) := (d.toArray.qsort (fun a b => a.1 < b.1)).toList
 
 def showDir (d : Dir) : String :=
-  if d.isEmpty then "-" else " ".intercalate ((sortDir d).map (fun f => f.1 ++ "=" ++ showHex f.2))
+  if d.isEmpty then "-" else " ".intercalate ((sortDir (d.map (fun f => (f.1.show, f.2)))).map (fun f => f.1 ++ "=" ++ showHex f.2))
 
 def showImg (rec dat : Bytes) : String := showHex rec ++ ":" ++ showHex dat
 
@@ -81,11 +82,13 @@ def handleAof : List String → Option String
     let n ← n.toInt?
     let (ct, age, rem, sk, re) := journalReload ef e s c n
     pure (s!"{ct} {age} {rem} {if sk then 1 else 0} {re}")
-  | "aofcompact" :: cfg :: cur :: dir => do
+  | "aofcompact" :: cfg :: cur :: keepIds :: dir => do
     let cfg ← cfg.toNat?
     let cur ← cur.toNat?
     let d ← parseDir dir
-    let steps := compactionSteps cfg 0 (fun _ => false) cur d
+    let ids := keepIds.splitOn ","
+    let keep := fun (r : Rec) => ids.contains (toHex ((r.buf.drop 20).take 33))
+    let steps := compactionSteps cfg 0 keep cur d
     -- observation points of the harness: after the tmp file is written, then after every remove / rename
     let nWrite := steps.length - (steps.filter (fun o => match o with | .remove _ => true | .rename _ _ => true | _ => false)).length
     let pts := (List.range (steps.length - nWrite + 1)).map (· + nWrite)
